@@ -1,6 +1,642 @@
-"""Front-end properties (C05-C09, C14) -- generators and relations."""
-REGISTRY = {}
+"""Front-end properties (C05-C09, C14): generators and relations."""
+import itertools
+
+from . import gen, ref, run
+from .props import net_props, worlds, chunks, thorough, judge_all, ctx_spec, judge_groups
+
+HOSTILE_NAMES = ["x", "xx", "xxx", "y", "z", "var0", "var1", "E", "A", "V", "3", "3x", "EX", "AGx",
+                 "_", "a", "true", "x_1", "é", "λ", "1x", "in"]
+NONASCII = ["é", "λ", "٣", "½", "ж"]           # alphanumeric
+NOT_NAME = ["€", "→", "∀", "·"]                      # neither
+UWS = [" ", " ", "\u0085"]                                      # unicode whitespace
+
+
+def front_answer(chk, cid):
+    r = chk.results.get(cid, {})
+    return run.norm(r.get("impl")), run.norm(r.get("model"))
 
 
 def judge_front(chk):
-    pass
+    """impl vs model for every front-end case (the tie); spec relations are per property"""
+    for cid, case in list(chk.cases.items()):
+        if case["kind"] == "EVAL":
+            continue
+        i, m = front_answer(chk, cid)
+        if i[0] == "OK":
+            chk.nontrivial.add(hash((case["kind"], tuple(case["fields"]))))
+        if i[0] == "PANIC":
+            chk.record(cid, ("violation", "implementation panicked: " + chk.results[cid]["impl"].get("payload", "")))
+            continue
+        if case.get("spec_done"):
+            pass
+        if i != m:
+            chk.record(cid, ("tie", "implementation %s / model %s" % ((i[0], i[1][:60]), (m[0], m[1][:60]))))
+
+
+# ------------------------------------------------------------------ C05
+ALPHABET = ["a", "{x}", "~", "EX", "&", "|", "=>", "EU", "!{x}:", "@{x}:", "(", ")"]
+ALPHABET_T = ALPHABET + ["AG", "AW", "<=>", "^", "3{y}:", "true"]
+
+
+def add_parse(chk, s, ext, tag):
+    cid = chk.add_front("PARSE", ["1" if ext else "0", gen.hx(s)], tag=tag, meta={"s": s, "ext": ext})
+    return cid
+
+
+def gen_C05(chk):
+    rng = chk.rng
+    # exhaustive token sequences (joined by single spaces)
+    maxlen = 5 if thorough(chk) else 4
+    for L in range(1, maxlen + 1):
+        for seq in itertools.product(ALPHABET, repeat=L):
+            # unbalanced parentheses are uninteresting beyond length 3: keep all up to 3
+            if L > 3:
+                depth = 0
+                ok = True
+                for t in seq:
+                    if t == "(":
+                        depth += 1
+                    elif t == ")":
+                        depth -= 1
+                        if depth < 0:
+                            ok = False
+                            break
+                if not ok or depth != 0:
+                    continue
+            add_parse(chk, " ".join(seq), False, "exh%d" % L)
+    chk.notes.append("token sequences over %d symbols enumerated completely up to length %d "
+                     "(balanced ones beyond length 3)" % (len(ALPHABET), maxlen))
+    # random longer sequences over the larger alphabet, with whitespace variations
+    for j in range(6000 if thorough(chk) else 1500):
+        L = rng.randint(3, 12)
+        seq = [rng.choice(ALPHABET_T) for _ in range(L)]
+        sep = [rng.choice([" ", " ", "", "  ", "\t", "\n"]) for _ in range(L + 1)]
+        s = "".join(a + b for a, b in zip(sep, seq + [""]))
+        add_parse(chk, s, rng.random() < 0.3, "rndseq")
+    # valid formulae rendered with variations, and their mutations
+    props = ["a", "b", "p_1", "EXa", "3x", "Vv", "E", "A1", "été"]
+    for j in range(3000 if thorough(chk) else 800):
+        ext = rng.random() < 0.5
+        f = gen.random_formula(rng, rng.randint(1, 8), props, max_vars=3,
+                               wilds=(("w",) if ext else ()), doms=(("d",) if ext else ()),
+                               binops=gen.BINOPS, names=HOSTILE_NAMES[:8])
+        s = minimal_render(f, rng)
+        add_parse(chk, s, ext, "valid")
+        if not ext:
+            a = add_parse(chk, s, True, "conservative")
+            chk.cases[a]["same_as_plain"] = s
+        m = mutate(s, rng)
+        add_parse(chk, m, ext, "mutated")
+    # identifier shapes
+    shapes = ["EX", "EXa", "EXX", "E", "A", "EU", "AUx", "AW1", "3", "3a", "V", "Vx", "V_", "_", "__x",
+              "1", "0", "true", "True", "false", "False", "truex", "1a", "a1", "in", "x in", "é",
+              "λx", "٣", "a½", "a€b", "a→", "∀{x}: a", "a & b",
+              "EX a", "3 {x}: a", "a·b"]
+    for sh in shapes:
+        for tmpl in ["%s", "~%s", "%s & a", "a EU %s", "EX %s", "(%s)", "!{x}: %s", "!{%s}: {%s}", "%s%s"]:
+            try:
+                s = tmpl % ((sh,) * tmpl.count("%s"))
+            except TypeError:
+                continue
+            add_parse(chk, s, False, "ident")
+            add_parse(chk, s, True, "ident")
+    # hybrid segments: whitespace, long names, domains
+    for op in ["!", "3", "V", "@", "\\bind", "\\exists", "\\forall", "\\jump", "\\bindx", "\\"]:
+        for w1 in ["", " ", "\t "]:
+            for dom in ["", " in %d%", "in%d%", " in % d%", " in %%", " i %d%", " in %d% "]:
+                for w2 in ["", " "]:
+                    s = "%s%s{x}%s%s: {x}" % (op, w1, dom, w2)
+                    add_parse(chk, s, True, "segment")
+                    add_parse(chk, s, False, "segment")
+
+
+def minimal_render(t, rng):
+    """text with only the parentheses the grammar needs (sometimes more), to exercise
+    precedence and associativity"""
+    LV = {"EU": 0, "AU": 0, "EW": 0, "AW": 0, "And": 1, "Xor": 2, "Or": 3, "Imp": 4, "Iff": 5}
+
+    def go(t, ctx_level, is_left):
+        # ctx_level: level of the enclosing binary operator (6 = top / group, -1 = unary operand)
+        if t[0] == "T":
+            return gen.atom_text(t, rng)
+        if t[0] == "U":
+            s = gen.UN_S[t[1]] + ("" if t[1] == "Not" and rng.random() < 0.5 else " ") + go(t[2], -1, False)
+            return s if rng.random() < 0.8 else "(" + s + ")"
+        if t[0] == "B":
+            lv = LV[t[1]]
+            s = go(t[2], lv, True) + " " + gen.BIN_S[t[1]] + " " + go(t[3], lv, False)
+            need = lv > ctx_level or (lv == ctx_level and is_left) or ctx_level == -1
+            return "(" + s + ")" if need or rng.random() < 0.15 else s
+        dom = " in %%%s%%" % t[3] if t[3] else ""
+        op = gen.HYB_LONG[t[1]] if rng.random() < 0.3 else gen.HYB_S[t[1]]
+        s = "%s{%s}%s: %s" % (op, t[2], dom, go(t[4], 6, False))
+        return s if ctx_level == 6 and rng.random() < 0.8 else "(" + s + ")"
+
+    return go(t, 6, False)
+
+
+def mutate(s, rng):
+    if not s:
+        return "("
+    ops = rng.randint(1, 2)
+    for _ in range(ops):
+        i = rng.randrange(len(s))
+        r = rng.random()
+        if r < 0.3:
+            s = s[:i] + s[i + 1:]
+        elif r < 0.5:
+            s = s[:i] + s[i] + s[i:]
+        elif r < 0.7:
+            j = rng.randrange(len(s))
+            l = list(s)
+            l[i], l[j] = l[j], l[i]
+            s = "".join(l)
+        else:
+            s = s[:i] + rng.choice(["(", ")", "~", "&", "{", "}", ":", "%", " ", "EX ", "!", "@", "3", "V", "<", "=", ">",
+                                    "é", "€", " ", "|", "^", "in", "\\"]) + s[i:]
+        if not s:
+            return ")"
+    return s
+
+
+def judge_C05(chk):
+    plain_by_text = {}
+    for cid, case in chk.cases.items():
+        if case["kind"] == "PARSE" and not case["meta"]["ext"]:
+            plain_by_text[case["meta"]["s"]] = cid
+    for cid, case in list(chk.cases.items()):
+        if case["kind"] != "PARSE":
+            continue
+        i, m = front_answer(chk, cid)
+        if i[0] == "PANIC":
+            continue
+        s, ext = case["meta"]["s"], case["meta"]["ext"]
+        want = ref.ref_parse_string(s, ext)
+        if i[0] == "OK":
+            try:
+                got, stored = ref.read_sexpr(i[1])
+            except Exception as ex:   # printer broke
+                chk.record(cid, ("tie", "unreadable tree: %s" % ex))
+                continue
+            if want is None:
+                chk.record(cid, ("violation", "accepted %r which the documented grammar rejects (tree %s)"
+                                 % (s, gen.render(got))))
+            elif got != want:
+                chk.record(cid, ("violation", "%r parsed as %s, the grammar dictates %s"
+                                 % (s, gen.render(got), gen.render(want))))
+        elif i[0] == "ERR" and want is not None:
+            chk.record(cid, ("violation", "rejected %r which the documented grammar derives as %s"
+                             % (s, gen.render(want))))
+        # the extended parser yields the plain parser's tree on plain formulae
+        if case.get("same_as_plain"):
+            other = plain_by_text.get(case["same_as_plain"])
+            if other:
+                io, _ = front_answer(chk, other)
+                if io[0] == "OK" and io != i:
+                    chk.record(cid, ("violation", "extended parser differs from the plain parser on %r" % s))
+    judge_front(chk)
+
+
+# ------------------------------------------------------------------ C06
+def add_tree(chk, t, tag):
+    s = gen.render(t)
+    return chk.add_front("TREE", [sexpr_of(t), gen.hx(s)], tag=tag, meta={"t": t, "s": s})
+
+
+def sexpr_of(t):
+    if t[0] == "T":
+        return "(T %s)" % (t[1] if t[1] in "01" else "%s:%s" % (t[1], gen.hx(t[2])))
+    if t[0] == "U":
+        return "(U %s %s)" % (t[1], sexpr_of(t[2]))
+    if t[0] == "B":
+        return "(B %s %s %s)" % (t[1], sexpr_of(t[2]), sexpr_of(t[3]))
+    return "(H %s %s %s %s)" % (t[1], gen.hx(t[2]), gen.hx(t[3]) if t[3] else "_", sexpr_of(t[4]))
+
+
+GOOD_NAMES = ["a", "b_1", "x", "xx", "EXa", "3x", "V1", "é", "_", "Tru", "p0"]
+
+
+def gen_C06(chk):
+    rng = chk.rng
+    props = ["a", "b_1", "EXa"]
+    # all trees with up to 2 operators (with wild-cards and domains), through the constructors
+    pool = []
+    for sz in range(0, 3):
+        pool += list(gen.enum_formulas(sz, props[:2], ["x"], max_vars=2, wilds=("w",), doms=("d",),
+                                       binops=gen.BINOPS))
+    if not thorough(chk):
+        pool = pool[:400] + rng.sample(pool[400:], min(len(pool) - 400, 2500))
+    chk.notes.append("constructor-built trees: all with <= 2 operators (%d%s), plus random deep ones"
+                     % (len(pool), "" if thorough(chk) else " sampled"))
+    for t in pool:
+        add_tree(chk, t, "exh")
+    for j in range(3000 if thorough(chk) else 700):
+        t = gen.random_formula(rng, rng.randint(3, 25), GOOD_NAMES[:5], scope=["x"], max_vars=4,
+                               wilds=("w", "W2"), doms=("d", "D_2"), binops=gen.BINOPS, names=GOOD_NAMES)
+        add_tree(chk, t, "deep")
+        # through the parsers and through preprocessing
+        s = minimal_render(t, rng)
+        cid = chk.add_front("PARSE", ["1", gen.hx(s)], tag="parsed", meta={"s": s, "ext": True})
+        chk.cases[cid]["check_fields"] = True
+    for j in range(1000 if thorough(chk) else 300):
+        t = gen.random_formula(rng, rng.randint(2, 14), props, max_vars=4, wilds=("w",), doms=("d",),
+                               binops=gen.BINOPS, names=HOSTILE_NAMES[:12])
+        cid = chk.add_front("PREP", ["1", ",".join(gen.hx(p) for p in props), gen.hx(gen.render(t))],
+                            tag="preprocessed", meta={"t": t})
+        chk.cases[cid]["check_fields"] = True
+
+
+def fields_consistent(stored):
+    for text, h, node in stored:
+        if text != gen.render(node):
+            return "stored text %r differs from the rendering %r" % (text, gen.render(node))
+        if h != ref.height(node):
+            return "stored height %d, structure has height %d (%s)" % (h, ref.height(node), gen.render(node))
+    return None
+
+
+def judge_C06(chk):
+    for cid, case in list(chk.cases.items()):
+        i, m = front_answer(chk, cid)
+        if i[0] == "PANIC":
+            continue
+        if case["kind"] == "TREE":
+            t = case["meta"]["t"]
+            if i[0] != "OK":
+                chk.record(cid, ("violation", "print/parse round trip fails for %s: %s" % (case["meta"]["s"], i[1][:80])))
+                continue
+            try:
+                got, stored = ref.read_sexpr(i[1])
+            except Exception as ex:
+                chk.record(cid, ("tie", "unreadable tree: %s" % ex))
+                continue
+            if got != t:
+                chk.record(cid, ("violation", "constructors built %s from %s" % (gen.render(got), gen.render(t))))
+                continue
+            why = fields_consistent(stored)
+            if why:
+                chk.record(cid, ("violation", why))
+        elif case.get("check_fields") and i[0] == "OK":
+            try:
+                got, stored = ref.read_sexpr(i[1])
+            except Exception as ex:
+                chk.record(cid, ("tie", "unreadable tree: %s" % ex))
+                continue
+            why = fields_consistent(stored)
+            if why:
+                chk.record(cid, ("violation", why))
+    judge_front(chk)
+
+
+# ------------------------------------------------------------------ C07
+def gen_C07(chk):
+    rng = chk.rng
+    props = ["a", "b", "x"]
+    for j in range(6000 if thorough(chk) else 1500):
+        r = rng.random()
+        scope = []
+        t = gen.random_formula(rng, rng.randint(1, 12), props + (["zz"] if r < 0.1 else []), scope=scope,
+                               max_vars=4, names=HOSTILE_NAMES[:rng.choice([3, 6, 12])], w_hybrid=0.5)
+        if r < 0.25:
+            # break scoping: free variable, re-quantification, jump to an unbound variable
+            t = break_scoping(t, rng)
+        cid = chk.add_front("PREP", ["0", ",".join(gen.hx(p) for p in props), gen.hx(gen.render(t))],
+                            tag="prep", meta={"t": t, "props": props})
+
+
+def break_scoping(t, rng):
+    subs = list(gen.subtrees(t))
+    target = rng.choice(subs)
+    r = rng.random()
+    if r < 0.35:
+        repl = gen.T("V", rng.choice(["q", "x", "y", "xx"]))
+    elif r < 0.7:
+        names = gen.binder_names(t) or ["x"]
+        repl = ("H", rng.choice(gen.QUANTS), rng.choice(names), None, target)
+    else:
+        repl = ("H", "Jump", rng.choice(["q", "x", "y"]), None, target)
+    from .props import replace_subtree
+    return replace_subtree(t, target, repl)
+
+
+def judge_C07(chk):
+    extra = []
+    for cid, case in list(chk.cases.items()):
+        if case["kind"] != "PREP" or case.get("second"):
+            continue
+        i, m = front_answer(chk, cid)
+        if i[0] == "PANIC":
+            continue
+        t, props = case["meta"]["t"], case["meta"]["props"]
+        problem = ref.well_scoped(t, props)
+        if i[0] == "OK":
+            if problem:
+                chk.record(cid, ("violation", "accepted %s although %s" % (gen.render(t), problem)))
+                continue
+            got, stored = ref.read_sexpr(i[1])
+            if ref.debruijn(got) != ref.debruijn(t):
+                chk.record(cid, ("violation", "%s preprocessed to %s: not alpha-equivalent" % (gen.render(t), gen.render(got))))
+            elif got != ref.rename_by_depth(t):
+                chk.record(cid, ("violation", "%s preprocessed to %s: names are not given by nesting depth"
+                                 % (gen.render(t), gen.render(got))))
+            elif len(set(gen.binder_names(got))) != gen.quant_depth(t):
+                chk.record(cid, ("violation", "number of distinct names differs from the nesting depth"))
+            else:
+                extra.append((cid, got))
+        elif i[0] == "ERR":
+            if not problem:
+                chk.record(cid, ("violation", "rejected well-scoped %s (%s)" % (gen.render(t), i[1])))
+            elif i[1] != problem:
+                chk.record(cid, ("violation", "%s rejected as %s, expected %s" % (gen.render(t), i[1], problem)))
+    # idempotence: preprocessing the result again changes nothing
+    ids = []
+    for cid, got in extra[: (3000 if thorough(chk) else 600)]:
+        c2 = chk.add_front("PREP", ["0", chk.cases[cid]["fields"][1], gen.hx(gen.render(got))], tag="idem",
+                           meta={"t": got, "props": chk.cases[cid]["meta"]["props"]})
+        chk.cases[c2]["second"] = cid
+        ids.append(c2)
+    chk.execute(ids, sub="idem")
+    for c2 in ids:
+        i2, _ = front_answer(chk, c2)
+        i1, _ = front_answer(chk, chk.cases[c2]["second"])
+        if i1 != i2:
+            chk.record(c2, ("violation", "preprocessing is not idempotent on %s" % gen.render(chk.cases[c2]["meta"]["t"])))
+    judge_front(chk)
+
+
+# ------------------------------------------------------------------ C08
+def gen_C08(chk):
+    rng = chk.rng
+    ws = worlds(chk, quick_names=["N02", "N05", "N06", "N09", "N16", "N21"], n_random=(8 if thorough(chk) else 2))
+    pool_names = ["x", "xx", "xxx", "y", "zz", "var0", "E", "V", "3"]
+    for nm, net in ws:
+        props = net_props(net)
+        for j in range(30 if thorough(chk) else 8):
+            f = gen.random_formula(rng, rng.randint(2, 8), props, max_vars=3, binops=gen.BINOPS)
+            k = gen.quant_depth(f)
+            group = []
+            base = chk.add_eval(net, k, "s", [gen.render(f)], tag="canonical", netname=nm)
+            chk.cases[base]["ast"] = f
+            group.append(base)
+            for v in range(8):
+                g = gen.alpha_rename(f, rng, pool_names) if v % 2 == 0 else f
+                # names equal to the internal ones in a permuted order
+                if v == 3:
+                    g = gen.alpha_rename(f, rng, ["xxx", "xx", "x"])
+                s = gen.render_variant(g, rng)
+                cid = chk.add_eval(net, k, "s", [s], tag="variant", netname=nm)
+                chk.cases[cid]["ast"] = f
+                group.append(cid)
+            for g_ in group:
+                chk.cases[g_]["group"] = group
+                chk.cases[g_]["perm"] = (0,)
+            # the front end must agree as well: same preprocessed tree
+            pg = []
+            for cid in group:
+                s = chk.cases[cid]["formulas"][0]
+                c2 = chk.add_front("PREP", ["0", ",".join(gen.hx(p) for p in props), gen.hx(s)], tag="prep-variant")
+                pg.append(c2)
+            for c2 in pg:
+                chk.cases[c2]["prep_group"] = pg
+
+
+def judge_C08(chk):
+    judge_all(chk)
+    judge_groups(chk)
+    seen = set()
+    for cid, case in list(chk.cases.items()):
+        pg = case.get("prep_group")
+        if not pg or pg[0] in seen:
+            continue
+        seen.add(pg[0])
+        answers = {}
+        for c in pg:
+            i, _ = front_answer(chk, c)
+            answers.setdefault(i, []).append(c)
+        if len(answers) > 1:
+            ids = [v[0] for v in answers.values()]
+            chk.record(ids[-1], ("violation", "meaning-preserving rewrites give different preprocessed trees: %s vs %s" %
+                                 (gen.unhx(chk.cases[ids[0]]["fields"][2]), gen.unhx(chk.cases[ids[-1]]["fields"][2]))))
+    judge_front(chk)
+
+
+# ------------------------------------------------------------------ C09
+def gen_C09(chk):
+    rng = chk.rng
+    props = ["a", "b", "Vv", "3x"]
+    seen = set()
+    trees = []
+    for j in range(1500 if thorough(chk) else 400):
+        ext = rng.random() < 0.5
+        t = gen.random_formula(rng, rng.randint(2, 12), props, max_vars=4, wilds=(("w", "V3") if ext else ()),
+                               doms=(("d", "e") if ext else ()), binops=gen.BINOPS, w_hybrid=0.45)
+        t = ref.rename_by_depth(t)
+        trees.append(t)
+        for s in gen.subtrees(t):
+            txt = gen.render(s)
+            if txt in seen:
+                continue
+            seen.add(txt)
+            chk.add_front("CANON", [gen.hx(txt)], tag="canon", meta={"t": s, "s": txt})
+    # duplicate marking on batches with planted overlaps
+    from .props import planted_batch
+    for j in range(400 if thorough(chk) else 120):
+        ext = rng.random() < 0.6
+        fs = planted_batch(rng, props[:2], ext) if rng.random() < 0.7 else [rng.choice(trees) for _ in range(rng.randint(1, 4))]
+        if rng.random() < 0.3:
+            # a jump between a restricted binder and a shared sub-formula
+            core = ("U", "EF", gen.T("V", "x"))
+            fs = [("B", "And", ("H", "Bind", "x", "d", ("H", "Jump", "x", None, core)),
+                   ("H", "Bind", "y", None, ("B", "And", gen.T("P", "a"), ("U", "EF", gen.T("V", "y")))))] + fs[:2]
+            ext = True
+        fs = [f for f in fs if not gen.free_vars(f)]
+        if not fs:
+            continue
+        chk.add_front("DUPS", ["1", ",".join(gen.hx(p) for p in props), ",".join(gen.hx(gen.render(f)) for f in fs)],
+                      tag="dups", meta={"fs": fs})
+
+
+def occurrences_with_domains(t, doms=None):
+    """every sub-formula occurrence with the domains of its free variables (by name)"""
+    doms = doms or {}
+    yield t, dict(doms)
+    if t[0] == "U":
+        yield from occurrences_with_domains(t[2], doms)
+    elif t[0] == "B":
+        yield from occurrences_with_domains(t[2], doms)
+        yield from occurrences_with_domains(t[3], doms)
+    elif t[0] == "H":
+        d2 = dict(doms)
+        if t[1] != "Jump":
+            d2[t[2]] = t[3]
+        yield from occurrences_with_domains(t[4], d2)
+
+
+def judge_C09(chk):
+    by_canon = {}
+    for cid, case in list(chk.cases.items()):
+        i, m = front_answer(chk, cid)
+        if i[0] != "OK":
+            continue
+        if case["kind"] == "CANON":
+            parts = i[1].split(" ")
+            canon = gen.unhx(parts[0])
+            ren = dict(tuple(gen.unhx(z) for z in x.split(">")) for x in parts[1].split(",")) if len(parts) > 1 and parts[1] else {}
+            t = case["meta"]["t"]
+            form, free_order = ref.open_debruijn(t)
+            by_canon.setdefault(canon, []).append((cid, form))
+            case["canon"] = canon
+            # the renaming maps every free variable injectively to its canonical name
+            fv = gen.free_vars(t)
+            if not fv <= set(ren.keys()):
+                chk.record(cid, ("violation", "renaming of %s misses free variables %s" % (case["meta"]["s"], fv - set(ren.keys()))))
+            elif len({ren[v] for v in fv}) != len(fv):
+                chk.record(cid, ("violation", "renaming of %s is not injective on free variables" % case["meta"]["s"]))
+            else:
+                # canonical text = text with free variables renamed accordingly, up to bound names
+                ct = ref.ref_parse_string(canon, True)
+                if ct is None or ref.open_debruijn(ct)[0] != form:
+                    chk.record(cid, ("violation", "canonical form %r of %s is not a renaming of it" % (canon, case["meta"]["s"])))
+    # equal canonical text <=> equal up to renaming
+    forms = {}
+    for canon, items in by_canon.items():
+        base = items[0][1]
+        for cid, form in items[1:]:
+            if form != base:
+                chk.record(cid, ("violation", "sub-formulae not equal up to renaming share the canonical form %r" % canon))
+        forms.setdefault(repr(base), set()).add(canon)
+    for f, canons in forms.items():
+        if len(canons) > 1:
+            c = sorted(canons)
+            cid = by_canon[c[1]][0][0]
+            chk.record(cid, ("violation", "sub-formulae equal up to renaming get different canonical forms %r / %r" % (c[0], c[1])))
+    # idempotence
+    ids = []
+    for canon in list(by_canon.keys())[: (4000 if thorough(chk) else 800)]:
+        c2 = chk.add_front("CANON", [gen.hx(canon)], tag="canon-idem", meta={"s": canon, "t": None})
+        chk.cases[c2]["idem"] = canon
+        ids.append(c2)
+    chk.execute(ids, sub="idem")
+    for c2 in ids:
+        i, _ = front_answer(chk, c2)
+        if i[0] == "OK" and gen.unhx(i[1].split(" ")[0]) != chk.cases[c2]["idem"]:
+            chk.record(c2, ("violation", "canonising the canonical form %r changes it" % chk.cases[c2]["idem"]))
+    # duplicates: counter n  =>  at least n+1 occurrences up to renaming with identical domains
+    for cid, case in list(chk.cases.items()):
+        if case["kind"] != "DUPS":
+            continue
+        i, m = front_answer(chk, cid)
+        if i[0] != "OK" or not i[1]:
+            continue
+        fs = [ref.rename_by_depth(f) for f in case["meta"]["fs"]]
+        occ = {}
+        for f in fs:
+            for s, doms in occurrences_with_domains(f):
+                form, free_order = ref.open_debruijn(s)
+                d = tuple(sorted((idx, doms.get(v)) for v, idx in free_order.items()))
+                occ[(repr(form), d)] = occ.get((repr(form), d), 0) + 1
+        for item in i[1].split(","):
+            head, cnt = item.rsplit("#", 1)
+            canon_hex, doms_s = head.split("[", 1)
+            doms_s = doms_s.rstrip("]")
+            canon = gen.unhx(canon_hex)
+            ct = ref.ref_parse_string(canon, True)
+            if ct is None:
+                chk.record(cid, ("violation", "duplicate key %r is not a formula" % canon))
+                continue
+            form, free_order = ref.open_debruijn(ct)
+            dd = {}
+            if doms_s:
+                for e in doms_s.split(";"):
+                    v, d = e.split("=")
+                    dd[gen.unhx(v)] = None if d == "_" else gen.unhx(d)
+            d = tuple(sorted((idx, dd.get(v)) for v, idx in free_order.items()))
+            have = occ.get((repr(form), d), 0)
+            if have < int(cnt) + 1:
+                chk.record(cid, ("violation", "duplicate %r with domains %s reported with counter %s but occurs %d time(s)"
+                                 % (canon, dd, cnt, have)))
+    judge_front(chk)
+
+
+# ------------------------------------------------------------------ C14
+def gen_C14(chk):
+    rng = chk.rng
+    ws = worlds(chk, quick_names=["N02", "N05", "N06", "N09", "N17"], n_random=(6 if thorough(chk) else 2))
+    for nm, net in ws:
+        props = net_props(net)
+        for j in range(120 if thorough(chk) else 40):
+            ext = rng.random() < 0.6
+            f = gen.random_formula(rng, rng.randint(1, 9), props + (["nope"] if rng.random() < 0.1 else []), max_vars=3,
+                                   wilds=(("p", "q") if ext else ()), doms=(("d",) if ext else ()),
+                                   binops=gen.BINOPS, names=HOSTILE_NAMES[:6], w_hybrid=0.5)
+            r = rng.random()
+            if r < 0.2:
+                f = break_scoping(f, rng)
+            d = gen.quant_depth(f)
+            k = rng.choice([0, max(0, d - 1), d, d, d + 1, d + 2])
+            if len(props) * (1 + k) > 10:
+                k = d
+            wl, dl = gen.labels_of(f)
+            labels = sorted(wl | dl)
+            # an arbitrary subset of the required labels, malformed sets now and then
+            ctx = []
+            for l in labels:
+                if rng.random() < 0.85:
+                    spec = ctx_spec(rng) if rng.random() < 0.8 else "R%d.1.2" % rng.randint(1, 999)
+                    ctx.append((l, spec))
+            mode = ("e" if ext else "") + rng.choice(["s", "s", ""])
+            s = gen.render(f) if rng.random() < 0.6 else gen.render_variant(f, rng)
+            rr = rng.random()
+            if rr < 0.25:
+                s = mutate(s, rng)
+                cid = chk.add_eval(net, k, mode, [s], ctx=ctx, tag="mutated", netname=nm)
+            else:
+                cid = chk.add_eval(net, k, mode, [f] if s == gen.render(f) else [s], ctx=ctx, tag="structured", netname=nm)
+                if s != gen.render(f):
+                    chk.cases[cid]["ast_of_string"] = f
+        # deep nesting (bounded), long unary chains, many parentheses
+        for depth in ([8, 32, 64] if not thorough(chk) else [8, 32, 64, 200]):
+            chk.add_eval(net, 0, "s", ["(" * depth + props[0] + ")" * depth], tag="nesting", netname=nm)
+            chk.add_eval(net, 0, "s", ["~" * depth + props[0]], tag="nesting", netname=nm)
+            chk.add_eval(net, 0, "s", ["(" * depth + props[0] + ")" * (depth - 1)], tag="nesting", netname=nm)
+        # random garbage
+        alphabet = list("ab{}()!@3V:~&|^=<>%EXAUFGW _\\in") + NONASCII + NOT_NAME + UWS
+        for j in range(100 if thorough(chk) else 30):
+            s = "".join(rng.choice(alphabet) for _ in range(rng.randint(0, 14)))
+            chk.add_eval(net, rng.randint(0, 2), rng.choice(["s", "es", "e", ""]), [s],
+                         ctx=[("p", "u")] if rng.random() < 0.5 else [], tag="garbage", netname=nm)
+
+
+def judge_C14(chk):
+    for cid, case in list(chk.cases.items()):
+        if case["kind"] != "EVAL":
+            continue
+        # strings derived from an AST: predict the error cause from the syntax
+        if "ast_of_string" in case:
+            saved = case["formulas"]
+            case["formulas"] = [case["ast_of_string"]]
+            v = chk.judge_eval(cid)
+            case["formulas"] = saved
+        else:
+            v = chk.judge_eval(cid)
+        chk.note_nontrivial(cid)
+        chk.record(cid, v)
+
+
+def runner(gens, judge):
+    def run_(chk):
+        for g in gens:
+            g(chk)
+        chk.execute()
+        judge(chk)
+    return run_
+
+
+REGISTRY = {
+    "C05": runner([gen_C05], judge_C05),
+    "C06": runner([gen_C06], judge_C06),
+    "C07": runner([gen_C07], judge_C07),
+    "C08": runner([gen_C08], judge_C08),
+    "C09": runner([gen_C09], judge_C09),
+    "C14": runner([gen_C14], judge_C14),
+}
